@@ -299,7 +299,7 @@ func gen(tier string, rng *h.Rng, emit0 func(string)) {
 	hon("dec 1 K/known/1/0")
 	hon("dpipe K/known/1/0")
 	anys := []string{"none", "known", "unk", "badval"}
-	for _, p := range []string{"ok", "inf", "bad"} {
+	for _, p := range []string{"ok", "inf", "inf0", "inf1", "trunc", "bad"} {
 		for _, r := range []string{"other", "same", "empty"} {
 			anys = append(anys, "id."+p+"."+r)
 		}
